@@ -20,7 +20,7 @@ func init() {
 		ID: "C14",
 		Rule: "case = one simple open line string (monotone, incrementally built simple walk, spiral, axis-parallel, 2-vertex; one case in seven puts all 2-3 vertices inside one star-shaped hole, each out in a different arm of it) or multi-line string of 2-3 members that are mutually disjoint or (one case in ten) touch at their end points only - an open chain cut in two, or two arcs closing a loop, half of those with a third member ending at one of the two junctions, in any order and direction -, and one valid polygonal clip shape from the C01 generators (star with 0-3 holes, comb, staircase, multi-polygon, box; presented as Polygon, MultiPolygon or *Bounds), in general position (no line vertex within 1e-7 d of the boundary, no polygon vertex within 1e-7 d of the line); " +
 			"oracle = harness reference clipping (exact crossing tests, intersection parameters, exact midpoint membership per sub-interval): inside length L*, emptiness, and for every returned vertex distance to the line and membership in / distance to the polygon; " +
-			"an evaluation is one Clip call judged; non-trivial = line that crosses the polygon boundary at least twice with 0 < L* < length; distinct by input hash",
+			"a phase huge_box (an ordinary line against a box one to three sides of which lie 1e11..1e300 away, reference = Liang-Barsky clip against the near sides; all its violations under one key, a recorded defect of the external clipper); an evaluation is one Clip call judged; non-trivial = line that crosses the polygon boundary at least twice with 0 < L* < length; distinct by input hash",
 		Assumptions: []string{"general position enforced by the harness", "tolerances 1e-9 relative (length) and 1e-9 x diameter (vertex positions)"},
 		Phases: []core.Phase{{Name: "clip", NumCases: func(t string) int {
 			if t == "thorough" {
@@ -37,11 +37,16 @@ func init() {
 				return 200000
 			}
 			return 20000
+		}}, {Name: "huge_box", NumCases: func(t string) int {
+			if t == "thorough" {
+				return 100000
+			}
+			return 10000
 		}}},
 		Run: run,
 		Floors: func(t string) map[string]int64 {
 			return map[string]int64{"cfg.entirely_inside": 100, "cfg.entirely_outside_bbox_overlap": 100, "cfg.entirely_outside_bbox_disjoint": 100, "cfg.crosses_hole": 100, "cfg.enters_several_times": 200, "cfg.two_vertex_line": 100,
-				"recv.MultiLineString": 300, "arg.*Bounds": 100, "arg.MultiPolygon": 300, "arg.Polygon": 300, "result.vertices_checked": 5000, "line.long": 100, "line.axis_parallel": 500, "line.all_vertices_in_one_hole": 300, "line.vertices_around_one_hole": 300, "line.long_approach>=511": 150, "line.members_close_a_loop": 100, "line.loop_with_a_member_ending_at_a_junction": 40, "line.around_the_member_in_the_bay_of_another": 150, "scale.1e-13..1e-10": 700, "through_vertex.cases": 10000, "through_vertex.line_enters_the_polygon": 3000, "line.members_share_an_end_point": 100, "storage.paths_share_one_backing_array": 500}
+				"recv.MultiLineString": 300, "arg.*Bounds": 100, "arg.MultiPolygon": 300, "arg.Polygon": 300, "result.vertices_checked": 5000, "line.long": 100, "line.axis_parallel": 500, "line.all_vertices_in_one_hole": 300, "line.vertices_around_one_hole": 300, "line.long_approach>=511": 150, "line.members_close_a_loop": 100, "line.loop_with_a_member_ending_at_a_junction": 40, "line.around_the_member_in_the_bay_of_another": 150, "scale.1e-13..1e-10": 700, "through_vertex.cases": 10000, "huge_box.cases": 5000, "huge_box.line_enters_the_box": 3000, "huge_box.as_polygon": 1000, "through_vertex.line_enters_the_polygon": 3000, "line.members_share_an_end_point": 100, "storage.paths_share_one_backing_array": 500}
 		},
 	})
 }
@@ -172,6 +177,10 @@ var polyKinds = []string{"star", "starholes", "starholes", "comb", "stair", "mul
 func run(c *core.Ctx, idx int) {
 	if c.Phase == "through_vertex" {
 		runThroughVertex(c)
+		return
+	}
+	if c.Phase == "huge_box" {
+		runHugeBox(c)
 		return
 	}
 	r := c.R
